@@ -426,8 +426,14 @@ def angles_to_x(points, latitude=False):
     :class:`~numpy.ndarray`
         The corresponding Cartesian vectors.
     """
+    if points.dtype.kind in 'iub':
+        #
+        # Short integers would otherwise be promoted to half or single
+        # precision only by the trigonometric functions.
+        #
+        points = points.astype(np.float64)
     npoints, ncol = points.shape
-    x = np.zeros((npoints, 3), dtype=(np.float64 if points.dtype.kind in 'iub' else points.dtype))
+    x = np.zeros((npoints, 3), dtype=points.dtype)
     phi = np.radians(points[:, 0])
     if latitude:
         theta = np.radians(90.0 - points[:, 1])
@@ -795,13 +801,15 @@ def x_to_angles(points, latitude=False):
     :class:`~numpy.ndarray`
         The corresponding spherical angles.
     """
+    if points.dtype.kind in 'iub':
+        points = points.astype(np.float64)
     npoints, ncol = points.shape
     phi = np.degrees(np.arctan2(points[:, 1], points[:, 0]))
     r = (points**2).sum(1)
     theta = np.degrees(np.arccos(points[:, 2]/r))
     if latitude:
         theta = 90.0 - theta
-    x = np.zeros((npoints, 2), dtype=(np.float64 if points.dtype.kind in 'iub' else points.dtype))
+    x = np.zeros((npoints, 2), dtype=points.dtype)
     x[:, 0] = phi
     x[:, 1] = theta
     return x
